@@ -94,7 +94,9 @@ class PassEquiv(object):
             self.A_vals.append({w.name: v[w] for w in self.symA.outputs})
             self.A_states.append(st)
         self.A_regw = {r.name: r for r in self.symA.regs}
-        self.A_mem = {m.name: m for m in self.symA.mems}
+        from fam import passes as _P
+        self.A_mem = dict(_P._mems(blockA))               # unique keys (name, or name#id)
+        self._mkey = {id(m): k for k, m in self.A_mem.items()}
         self.A_reset = {r.name: r.reset_value for r in self.symA.regs}
         self.A_inw = {w.name: w.bitwidth for w in self.symA.inputs}
         self.A_outw = {w.name: w.bitwidth for w in self.symA.outputs}
@@ -207,10 +209,10 @@ class PassEquiv(object):
                 mems={}, regsB={bn: model_int(m, B_regs0[Breg[bn]]) for bn in free_B})
             for mem, arr in self.A_st0['mems'].items():
                 if mem.addrwidth <= 8:
-                    cex['mems'][mem.name] = {a: model_int(m, z3.Select(arr, z3.BitVecVal(a, mem.addrwidth)))
+                    cex['mems'][self._mkey.get(id(mem), mem.name)] = {a: model_int(m, z3.Select(arr, z3.BitVecVal(a, mem.addrwidth)))
                                              for a in range(2 ** mem.addrwidth)}
                 else:
-                    cex['mems'][mem.name] = {}
+                    cex['mems'][self._mkey.get(id(mem), mem.name)] = {}
             res.update(status='refuted', cex=cex)
             return res
         if r != z3.unsat:
@@ -280,7 +282,7 @@ class PassEquiv(object):
                            mems={}, regsB={}, from_reset=True)
                 for mem, arr in self.A_st0['mems'].items():
                     if mem.addrwidth <= 8:
-                        cex['mems'][mem.name] = {a: model_int(m3, z3.Select(arr, z3.BitVecVal(a, mem.addrwidth)))
+                        cex['mems'][self._mkey.get(id(mem), mem.name)] = {a: model_int(m3, z3.Select(arr, z3.BitVecVal(a, mem.addrwidth)))
                                                  for a in range(2 ** mem.addrwidth)}
                 res.update(status='refuted', cex=cex)
                 return res
